@@ -36,6 +36,12 @@ theorem C14_holds (env : Env) (libs : List (String × Bytes)) (ops : List Op) :
           have hw : w.config = some c := by rw [← hinv, hc]
           obtain ⟨h1, h2, h3, h4, h5⟩ := hshow
           simp [postView, step, init_configured env w p c hw, firstFail, World.view, h1, h2, h3, h4, h5]
+      | auto =>
+        cases hc : g.cfg with
+        | none => simp [firstFail]
+        | some c =>
+          have hw : w.config = some c := by rw [← hinv, hc]
+          simp [postView, step, shouldAutoUpdate, hw, firstFail, World.view]
       | _ => simp [firstFail]
     · -- invariant
       simp only [mon14]
